@@ -30,3 +30,34 @@ a, b = "<!-- AUTOGEN:sensitivity -->", "<!-- /AUTOGEN:sensitivity -->"
 s = s[:s.index(a) + len(a)] + "\n" + "\n".join(out) + "\n" + s[s.index(b):]
 open(p, "w").write(s)
 print("rows:", len(out) - 2)
+
+# --------------------------------------------------------------------------- seeded/README.md
+base = os.path.join(V, "seeded")
+lines = ["# Independently seeded changes", "",
+         "Each directory holds `patch.diff`, `demo.py` (exits 1 with the patch, 0 without) and `meta.json`. They were written by sub-agents "
+         "that saw only the property text and a scratch worktree, and were confirmed with `tools/seeded.py verify` (repo suite passes with "
+         "the patch). `tools/seeded.py all` re-runs every patch on a scratch copy against the quick check of its property and rewrites "
+         "`results.json`; `tools/design_tables.py` rewrites this table. A change that its property's check does not catch carries the "
+         "reason in `meta.json` (`not_caught_reason`).", "",
+         "| change | property | what was changed | what it needs to manifest | quick check |", "|---|---|---|---|---|"]
+
+
+def cell(t):
+    return " ".join(str(t or "").split()).replace("|", "\\|")
+
+
+n_caught = 0
+for d in sorted(os.listdir(base)):
+    mp = os.path.join(base, d, "meta.json")
+    if not os.path.exists(mp):
+        continue
+    m = json.load(open(mp))
+    r = seed.get(d, {})
+    if r.get("outcome") == "caught":
+        n_caught += 1
+        res = "caught by `%s`" % r.get("caught_by_part", "")
+    else:
+        res = "**%s**: %s" % (r.get("outcome", "not run"), cell(m.get("not_caught_reason", "")))
+    lines.append("| %s | %s | %s | %s | %s |" % (d, m.get("property"), cell(m.get("summary"))[:400], cell(m.get("needs"))[:400], res))
+open(os.path.join(base, "README.md"), "w").write("\n".join(lines) + "\n")
+print("seeded:", len(lines) - 7, "caught:", n_caught)
